@@ -885,6 +885,13 @@ def _integrate_2d(case, fm, model, dtype, var, uniform, twin):
         bad = np.abs(cen - mean_c).max(axis=-1) > 0.1 * diam
         # cells must be resolvable in the flow's dtype
         under = diam < 64 * eps_d * np.maximum(1.0, np.abs(cen).max(axis=-1))
+        if twin.unit_box:
+            # data space [0, 1]^d behind a logit: a point closer to a face
+            # than ~1e3 eps is not representable well enough for its density
+            # to be evaluated (1 - x carries a relative error eps / (1 - x));
+            # the mass the flow puts there cannot be integrated in its dtype
+            under = under | (np.minimum(cen, 1.0 - cen).min(axis=-1)
+                             < 1024 * eps_d)
         wz = (np.ones(len(zcen)) if uniform else np.exp(
             _std_normal_logpdf(zcen, var))) * hh * hh * dens_bound
         lp = np.concatenate([
